@@ -47,9 +47,15 @@ def Entry.overdue (now : Nat) (e : Entry) : Bool :=
   | some d => decide (d ≤ now)
   | none => false
 
+/-- Is key `k` past its deadline at time `now`? -/
+def Spec.overdue (sp : Spec) (now : Nat) (k : Key) : Bool :=
+  match kvGet sp.ents k with
+  | some e => e.overdue now
+  | none => false
+
 /-- Time has passed: everything whose deadline is reached is gone. -/
 def Spec.settle (sp : Spec) (dt : Nat) : Spec :=
-  { now := sp.now + dt, ents := sp.ents.filter (fun p => !p.2.overdue (sp.now + dt)) }
+  { now := sp.now + dt, ents := sp.ents.filter (fun p => !sp.overdue (sp.now + dt) p.1) }
 
 /-- The expiry of one key takes place (no effect unless its deadline is reached). -/
 def Spec.expire (sp : Spec) (k : Key) : Spec :=
